@@ -24,6 +24,7 @@ def absBip (G : BipG) : AbsBipGraph where
   left_neighbors := fun v => (G.leftNeighbors v).map (·.map Int.ofNat)
   has_edge := fun u v => G.hasEdge u v
   edges := G.edges.map (fun e => ((e.1 : Int), (e.2 : Int)))
+  is_bipartite := true
 
 /-- `CompleteBipartiteGraph(L, R)` (`non_negative_int` on both sides), as seen by the variable groups -/
 def absCompleteBip (l r : Int) : Except Err AbsBipGraph :=
